@@ -104,6 +104,9 @@ def gen_cases(seed, tier):
                 c['desc'].update(base=s, fault=f, at=i)
                 cases.append(c)
                 made += 1
+    # a context whose macros take comma-separated list arguments (real code only: that parser is outside the model)
+    for s in docgen.exhaustive(docgen.SYM_COMMASEP, 3 if quick else 4):
+        cases.append(PC.mk_case('commasep', s, False, 'commasep'))
     for c in cases:
         s = c['desc']['s']
         c['nt'] = c['desc']['origin'] == 'fault' or (sum(1 for ch in s if ch in '\\{$[%') >= 1 and len(s) >= 3)
